@@ -506,6 +506,13 @@ pub fn replay(case: &Value) -> Result<String, String> {
             let kvs = corpus_sample(case["name"].as_str().unwrap(), case["take"].as_u64().unwrap() as usize, case["set"].as_bool().unwrap())?;
             run_fronts(&kvs, &[]).map(|n| format!("{} builds byte-identical", n))
         }
+        "plain" => {
+            let exe = format!("{}/plain/target/release/plain", crate::ev::verif_dir());
+            let o = std::process::Command::new(&exe).output().map_err(|e| format!("machinery: {}", e))?;
+            let theirs: Vec<String> = String::from_utf8_lossy(&o.stdout).lines().filter(|l| l.starts_with("PLAIN ")).map(|l| l.to_string()).collect();
+            let ours: Vec<String> = crate::plain_scope::scope_digests().into_iter().map(|(n, h)| format!("PLAIN {:016x} {}", h, n)).collect();
+            if theirs == ours { Ok(format!("{} groups identical", ours.len())) } else { Err("guard-off and hooks-on digests differ".into()) }
+        }
         "thread-moves" => {
             let all: Vec<Job> = jobs_list().into_iter().chain(wide_jobs()).collect();
             let ij: Vec<usize> = case["jobs"].as_array().unwrap().iter().map(|i| i.as_u64().unwrap() as usize).collect();
@@ -584,7 +591,7 @@ pub fn plan(tier: Tier) -> Plan {
     let mut p = Plan::new("C15", "model_checking");
     let thorough = tier.thorough();
     let scan = shared_state_scan();
-    p.rule = "(1) for every accepted sequence of the scope (subsets of U_ab3 with <= 4 keys quick / all thorough, x value patterns; fan-out families) the bytes through all 26 front ends (17 entry points + 6 usage variants: builders kept in use after rejected calls, several bulk calls on a populated builder + the 3 memory() constructors with into_fst/into_map/into_set), Builder::memory, a BufWriter, a 3-bytes-per-call sink and Map::from_iter are identical, and the raw front ends agree under the tiny cache geometries 1x1, 2x2, 3x3 (where evictions make the bytes depend on cache behaviour), also when repeated; the same for samples of the shipped corpora (400..10000 keys), where the DEFAULT cache is under pressure; the same for a long-tail family (10..64 keys of 66..502 bytes sharing long tails); (1b) bulk-load size ladder: 1 .. 400004 (thorough 3.3 million) generated items through every bulk entry point (iterators with exact size hints, streams, from_iter) against single inserts; (2) EVERY call-level interleaving (multiset permutations of the API calls new/insert.../finish) of every ordered pair (thorough: also triples of shorter jobs) of 6 builder jobs of different kinds and geometries driven from one thread: each builder must produce the bytes of its solo run (each pair runs on a fresh thread; pairs of jobs with wide nodes included); (2b) builders MOVED between fresh OS threads: a job started on thread A (every split point), handed to thread B, which finishes it and then builds another job / drops it and builds / builds first and then finishes it - every finished builder must produce the bytes of its solo run; (3) the whole-scope digest computed twice on one thread, on 8 free-running OS threads and in 4 child processes (std RandomState differs per process) must be equal - a repetition over an uncontrolled seed, reported as such. non-trivial = interleavings with at least one context switch".into();
+    p.rule = "(1) for every accepted sequence of the scope (subsets of U_ab3 with <= 4 keys quick / all thorough, x value patterns; fan-out families) the bytes through all 26 front ends (17 entry points + 6 usage variants: builders kept in use after rejected calls, several bulk calls on a populated builder + the 3 memory() constructors with into_fst/into_map/into_set), Builder::memory, a BufWriter, a 3-bytes-per-call sink and Map::from_iter are identical, and the raw front ends agree under the tiny cache geometries 1x1, 2x2, 3x3 (where evictions make the bytes depend on cache behaviour), also when repeated; the same for samples of the shipped corpora (400..10000 keys), where the DEFAULT cache is under pressure; the same for a long-tail family (10..64 keys of 66..502 bytes sharing long tails); (1b) bulk-load size ladder: 1 .. 400004 (thorough 3.3 million) generated items through every bulk entry point (iterators with exact size hints, streams, from_iter) against single inserts; (2) EVERY call-level interleaving (multiset permutations of the API calls new/insert.../finish) of every ordered pair (thorough: also triples of shorter jobs) of 6 builder jobs of different kinds and geometries driven from one thread: each builder must produce the bytes of its solo run (each pair runs on a fresh thread; pairs of jobs with wide nodes included); (2b) builders MOVED between fresh OS threads: a job started on thread A (every split point), handed to thread B, which finishes it and then builds another job / drops it and builds / builds first and then finishes it - every finished builder must produce the bytes of its solo run; (2c) a binary built WITHOUT the verification guard digests a fixed scope of public-API behaviour (bytes of all subsets of a 10-key universe, fan-outs 1..256, 60000 keys through three entry points; ranges, lookups, searches, set operations, get_key) and must agree group by group with this hooks-on process; (3) the whole-scope digest computed twice on one thread, on 8 free-running OS threads and in 4 child processes (std RandomState differs per process) must be equal - a repetition over an uncontrolled seed, reported as such. non-trivial = interleavings with at least one context switch".into();
     p.assumptions = vec![
         format!("the library has no synchronisation operation and no shared mutable state, so thread interleavings are one Mazurkiewicz trace and a controlled scheduler (loom/shuttle) would have no scheduling point to branch on; scan of /repo/src for static mut/thread_local/lazy_static/OnceCell/OnceLock/Atomic/Mutex/RwLock/RandomState/DefaultHasher/unsafe outside hook items found: {}", if scan.is_empty() { "nothing".to_string() } else { scan.join("; ") }),
         "call-level interleavings of builders on one thread expose any instance-crossing (global or thread-local) state".into(),
@@ -705,6 +712,32 @@ pub fn plan(tier: Tier) -> Plan {
             }
         }
     }
+    // the shipped configuration: the same scope of public-API behaviour digested
+    // by a binary built WITHOUT the verification guard must equal the digest
+    // computed in this (hooks-on) process
+    p.units.push(unit("guard-off-build-parity", "plain".into(), move |st, rep| {
+        let exe = format!("{}/plain/target/release/plain", crate::ev::verif_dir());
+        let o = match std::process::Command::new(&exe).output() {
+            Ok(o) if o.status.success() => o,
+            Ok(o) => {
+                rep.violation("guard-off build".into(), format!("the guard-off binary failed on the parity scope (exit {:?}): {}", o.status.code(), String::from_utf8_lossy(&o.stderr).lines().last().unwrap_or("")), json!({"kind": "plain"}));
+                return;
+            }
+            Err(e) => {
+                eprintln!("machinery: cannot run {}: {} (run ./check C15 or ./setup.sh)", exe, e);
+                std::process::exit(2);
+            }
+        };
+        let theirs: Vec<String> = String::from_utf8_lossy(&o.stdout).lines().filter(|l| l.starts_with("PLAIN ")).map(|l| l.to_string()).collect();
+        let ours: Vec<String> = crate::plain_scope::scope_digests().into_iter().map(|(n, h)| format!("PLAIN {:016x} {}", h, n)).collect();
+        st.evals += ours.len() as u64;
+        st.states += ours.len() as u64;
+        st.count("guard_off_parity_groups", ours.len() as u64);
+        if theirs != ours {
+            let d = ours.iter().zip(theirs.iter()).find(|(a, b)| a != b).map(|(a, b)| format!("hooks-on {:?} vs guard-off {:?}", a, b)).unwrap_or_else(|| format!("{} vs {} groups", ours.len(), theirs.len()));
+            rep.violation("guard-off parity".into(), format!("the library built without the verification guard behaves differently from the checked build: {}", d), json!({"kind": "plain"}));
+        }
+    }));
     // interleavings
     let jobs = jobs_list();
     for i in 0..jobs.len() {
@@ -802,6 +835,6 @@ pub fn plan(tier: Tier) -> Plan {
         }
         st.sample(|| json!({"scope_digest": format!("{:016x}", here), "threads": 8, "processes": 4}));
     }));
-    p.must_be_nonzero = vec!["corpus_front_end_comparisons".into(), "interleavings".into(), "thread_digests".into(), "process_digests".into()];
+    p.must_be_nonzero = vec!["guard_off_parity_groups".into(), "corpus_front_end_comparisons".into(), "interleavings".into(), "thread_digests".into(), "process_digests".into()];
     p
 }
